@@ -3,7 +3,7 @@
    injection arrays), ETDRK/Phi.v + ETDRK/Forcing.v (tableaux; tied to the code by C02), Nonlin/Terms.v (vorticity convection). *)
 From Coq Require Import ZArith QArith List Bool Lia.
 From EXV Require Import Base.Scalar Base.FieldLemmas Layout.Freq DFT.DFT1 Nonlin.Conv Nonlin.ConvProofs Nonlin.Terms Nonlin.TermsProofs
-  Nonlin.Injection ETDRK.Phi ETDRK.Forcing.
+  Nonlin.Injection ETDRK.Phi ETDRK.Forcing Nonlin.Laminar3D.
 Import ListNotations.
 Local Open Scope fld_scope.
 Ltac splits := repeat match goal with |- _ /\ _ => split end.
@@ -45,6 +45,16 @@ Theorem C12_convection_vanishes_on_laminar_states : forall (F : FieldT) (N Kc : 
   forall k, vorticity_conv F (prod2 F 2 N Kc) ii s 2 b w k = 0.
 Proof. intros F N Kc ii s b w Hw k. apply vorticity_conv_laminar. exact Hw. Qed.
 Print Assumptions C12_convection_vanishes_on_laminar_states.
+
+(* 3D: on the laminar subspace of the Kolmogorov velocity flow (u = (u_0(x_1), 0, 0): channel 0 supported on the axis k = (0, j, 0)) the
+   Leray-projected rotational convection vanishes identically - u x curl u is a gradient there and the projection removes it *)
+Theorem C12_rotational_convection_vanishes_on_laminar_states : forall (F : FieldT) (N Kc : Z) (ii s : F) (u0 : field F) (i : nat) (k : list Z),
+  (0 < N)%Z -> (0 <= Kc)%Z -> (2 * Kc < N)%Z -> ii <> 0 -> s <> 0 ->
+  (forall x, nth 0 x 0%Z <> 0%Z \/ nth 2 x 0%Z <> 0%Z -> u0 x = 0) ->
+  (i < 3)%nat -> length k = 3%nat ->
+  nth i (projected_conv F (prod2 F 3 N Kc) ii s 3 [u0; fzero F; fzero F]) (fzero F) k = 0.
+Proof. intros. apply projected_conv_laminar; assumption. Qed.
+Print Assumptions C12_rotational_convection_vanishes_on_laminar_states.
 
 (* when the nonlinear term returns the forcing f on the laminar subspace, every tableau is u' = E u + h phi1(z) f there ... *)
 Theorem C12_forced_step : forall (F : FieldT) (I : Type) (h : F) (z E Eh f : I -> F) (N : (I -> F) -> (I -> F)),
